@@ -25,6 +25,60 @@ template <class R> inline std::string rel_str(const R& r) { FaultPause fp; std::
 
 const dimension_type MAXDIM = 6;
 
+// "Best" results of the weakly relational domains: the smallest BD shape / octagon / box containing a set S has, in every
+// template direction d of the domain (+-x_i; x_i - x_j for BD shapes; also +-(x_i + x_j) for octagons), exactly sup_S(d).
+// For the upper bound S = x U y, so sup_R(d) must equal max(sup_x(d), sup_y(d)).  Suprema are read with maximize() on
+// private copies (itself checked against the exact LP oracle below).
+struct SupV { bool empty = false, unbounded = false, attained = true; mpq_class v; };
+template <class D> inline SupV sup_of(const D& x, const Linear_Expression& le) {
+  D c(x); SupV r; if (c.is_empty()) { r.empty = true; return r; }
+  Coefficient n, d; bool mx; if (!c.maximize(le, n, d, mx)) { r.unbounded = true; return r; }
+  r.v = mpq_class(n, d); r.v.canonicalize(); r.attained = mx; return r;
+}
+template <class D> inline std::vector<Linear_Expression> template_directions(dimension_type dim) {
+  std::vector<Linear_Expression> v;
+  for (dimension_type i = 0; i < dim; ++i) { v.push_back(Linear_Expression(Variable(i))); v.push_back(-Linear_Expression(Variable(i))); }
+  if constexpr (Dom<D>::kind == SHAPE) {
+    for (dimension_type i = 0; i < dim; ++i) for (dimension_type j = 0; j < dim; ++j) if (i != j) {
+      v.push_back(Variable(i) - Variable(j));
+      if (Dom<D>::oct && i < j) { v.push_back(Variable(i) + Variable(j)); v.push_back(-Linear_Expression(Variable(i)) - Variable(j)); } }
+  }
+  return v;
+}
+// returns a description of the first direction in which `r' is not the best shape containing x U y ("" if best)
+template <class D> inline std::string not_best_join(const D& r, const D& x, const D& y) {
+  dimension_type dim = r.space_dimension();
+  for (const Linear_Expression& d : template_directions<D>(dim)) {
+    SupV sr = sup_of(r, d), sx = sup_of(x, d), sy = sup_of(y, d);
+    if (sx.empty && sy.empty) { if (!sr.empty) return "the join of two empty elements is not empty"; return ""; }
+    bool want_unb = (!sx.empty && sx.unbounded) || (!sy.empty && sy.unbounded);
+    if (sr.empty) return "the join is empty although an argument is not";
+    if (want_unb) { if (!sr.unbounded) return "a direction unbounded in an argument is bounded in the join"; continue; }
+    mpq_class want; bool have = false;
+    if (!sx.empty) { want = sx.v; have = true; }
+    if (!sy.empty && (!have || sy.v > want)) { want = sy.v; have = true; }
+    if (sr.unbounded) { using PPL::IO_Operators::operator<<; std::ostringstream o; o << d; return "direction " + o.str() + " is unbounded in the join but bounded by " + want.get_str() + " in both arguments"; }
+    if (sr.v != want) { using PPL::IO_Operators::operator<<; std::ostringstream o; o << d; return "direction " + o.str() + ": supremum " + sr.v.get_str() + " in the join, " + want.get_str() + " over the union of the arguments"; }
+  }
+  return "";
+}
+
+// same, against a closed polyhedron S (constructors from another domain): exact = every template supremum agrees;
+// sound = no template supremum of the result is smaller
+template <class D> inline std::string not_best_wrt_polyhedron(const D& r, const PPL::C_Polyhedron& S, bool must_be_best) {
+  dimension_type dim = r.space_dimension();
+  { PPL::C_Polyhedron c(S); D rc(r); bool se = c.is_empty(), re = rc.is_empty(); if (se) return (re || !must_be_best) ? "" : "the source is empty, the result is not"; if (re) return "the result is empty, the source is not"; }
+  for (const Linear_Expression& d : template_directions<D>(dim)) {
+    SupV sr = sup_of(r, d), ss = sup_of(S, d);
+    using PPL::IO_Operators::operator<<; std::ostringstream o; o << d;
+    if (ss.unbounded) { if (!sr.unbounded) return "direction " + o.str() + " is unbounded in the source but bounded in the result (unsound)"; continue; }
+    if (sr.unbounded) { if (must_be_best) return "direction " + o.str() + " is bounded by " + ss.v.get_str() + " in the source but unbounded in the result (not the smallest element)"; continue; }
+    if (sr.v < ss.v) return "direction " + o.str() + ": supremum " + sr.v.get_str() + " in the result is below " + ss.v.get_str() + " in the source (unsound)";
+    if (must_be_best && sr.v != ss.v) return "direction " + o.str() + ": supremum " + sr.v.get_str() + " in the result, " + ss.v.get_str() + " in the source (not the smallest element)";
+  }
+  return "";
+}
+
 // Independent oracle for Box::upper_bound_assign_if_exact: the union of two non-empty boxes is a box iff one contains
 // the other, or they differ in exactly one dimension and the two intervals there overlap or are adjacent (same
 // finite value, at most one of the facing boundaries open).  Intervals are read through has_lower/upper_bound.
@@ -186,8 +240,11 @@ template <class D> void add_common_ops(ObjHarness<D>& H) {
               if (g_def.active) { Bits want = px; for (size_t i = 0; i < want.size() && i < py.size(); ++i) want[i] = px[i] && py[i]; def_expect_eq("intersection", x->space_dimension(), defbits(*x), want); }
               return std::string(); }; } });
   H.add({ "upper_bound_assign", 2, F_VAL | F_FAULT | F_SAMEDIM, 8, NOGEN,
-    PREPF { D* x = e.o[0]; const D* y = e.o[1]; return [x, y]() { Bits px = defbits(*x), py = defbits(*y); x->upper_bound_assign(*y);
+    PREPF { D* x = e.o[0]; const D* y = e.o[1]; return [x, y]() { Bits px = defbits(*x), py = defbits(*y);
+              std::shared_ptr<D> bx, by; if (g_def.active && (K == SHAPE || K == BOX)) { FaultPause fp; bx.reset(new D(*x)); by.reset(new D(*y)); }
+              x->upper_bound_assign(*y);
               if (g_def.active) { Bits lower = px; for (size_t i = 0; i < lower.size() && i < py.size(); ++i) lower[i] = px[i] || py[i]; def_expect_sub("upper_bound", x->space_dimension(), lower, defbits(*x)); }
+              if constexpr (K == SHAPE || K == BOX) { if (g_def.active && bx) { FaultPause fp; std::string why = not_best_join(*x, *bx, *by); g_def.ctx->stat("best_join_checks"); if (!why.empty()) def_violation("best-upper_bound", why); } }
               return std::string(); }; } });
   H.add({ "difference_assign", 2, F_VAL | F_FAULT | F_SAMEDIM, 6, NOGEN,
     PREPF { D* x = e.o[0]; const D* y = e.o[1]; return [x, y]() { Bits px = defbits(*x), py = defbits(*y); x->difference_assign(*y);
@@ -223,6 +280,25 @@ template <class D> void add_common_ops(ObjHarness<D>& H) {
   if constexpr (K != PROD) {
   H.add({ "simplify_using_context_assign", 2, F_ANS | F_FAULT | F_SAMEDIM, 3, NOGEN,
     PREPF { D* x = e.o[0]; const D* y = e.o[1]; return [x, y]() { return b2s(x->simplify_using_context_assign(*y)); }; } });
+  }
+  if constexpr (K == SHAPE || K == BOX) {
+  // constructors from a closed polyhedron (given by constraints or by generators) at each complexity class:
+  // ANY_COMPLEXITY must give the smallest element containing it, the others a sound one
+  H.add({ "from_polyhedron", 1, F_FAULT, 3,
+    GENF { op.a.push_back(r.range(0, 5)); gen_expr(r, op, W, false); op.a.push_back(r.range(0, 2)); op.a.push_back(r.range(0, 1)); },
+    PREPF { D* x = e.o[0]; dimension_type n = x->space_dimension(); Constraint c1 = HH::make_constraint(c, n, false, false); long cc = c.mod(3); bool via_gens = c.mod(2) != 0;
+            return [x, c1, cc, via_gens, n]() {
+              static const PPL::Complexity_Class CC[3] = { PPL::POLYNOMIAL_COMPLEXITY, PPL::SIMPLEX_COMPLEXITY, PPL::ANY_COMPLEXITY };
+              PPL::C_Polyhedron ph(n);
+              { D cpy(*x); Constraint_System cs = cpy.constraints(); for (Constraint_System::const_iterator i = cs.begin(); i != cs.end(); ++i) { if (i->is_strict_inequality()) ph.add_constraint(Linear_Expression(i->expression()) >= 0); else ph.add_constraint(*i); } }
+              if (!c1.is_strict_inequality()) ph.add_constraint(c1);
+              std::unique_ptr<D> r;
+              if (via_gens && !ph.is_empty()) { PPL::Generator_System gs = ph.generators(); r.reset(new D(gs)); }
+              else r.reset(new D(ph, CC[cc]));
+              bool best = via_gens ? !ph.is_empty() : cc == 2;
+              if (g_def.active) { FaultPause fp; g_def.ctx->stat("from_polyhedron_checks"); std::string why = not_best_wrt_polyhedron(*r, ph, best || via_gens); if (!why.empty()) def_violation(best || via_gens ? "best-from_polyhedron" : "sound-from_polyhedron", why); }
+              x->m_swap(*r);
+              return std::string(); }; } });
   }
   H.add({ "concatenate_assign", 2, F_VAL | F_FAULT, 2, NOGEN,
     PREPF { D* x = e.o[0]; const D* y = e.o[1]; if (x->space_dimension() + y->space_dimension() > MAXDIM) return skip_call();
